@@ -1,199 +1,279 @@
-import Lemmas.TaskQueue3
+import Lemmas.TaskQueueW2
 /-! # C15 — the task queue runs every submitted task exactly once before Shutdown returns
 
-Property theorems only.  The protocol model is `TQ.Step` (Model/TaskQueue.lean): submitters, the `in` channel, the
-dispatcher `process()` with one program-counter value per blocking point (the code as it is now, i.e. with the
-`len(backlog) == 0` test in the bounded branch), `backlog`, the `tasks` and `ready` channels, the workers, the recovery
-handler, `Shutdown`.  `TQ.next`/`TQ.enabled` are the executable form that the driver `drv_c15` runs against the real
-queue on every check; `next_is_step` says that they are the same relation.
+Property theorems only.  The model is the threaded program `TQW.TStep` (Model/TaskQueue.lean): submitters, the `in`
+channel, the dispatcher `process()` as a thread of its own with one program-counter value per blocking point (the code as
+it is now), `backlog`, the `tasks` and `ready` channels, and `workers` worker threads, each in the loop of `work()`
+(idle → running t → reporting), with exception semantics for panics (a panic unwinds to the deferred `errs.Recovery` of
+`runTask`; the handler call is a step of its own, under the guard `defer Recovery(nil)`; an unrecovered panic would
+terminate the thread), and `Shutdown`.  `TQW.tnext`/`TQW.tenabled` are the executable form that the driver `drv_c15` runs
+against the real queue on every check; `threaded_next_is_step` says they are the same relation.  The shared part of the
+state (`s.q`) is simulated by the protocol `TQ.Step` of Lemmas/TaskQueue*.lean (`refines_protocol`), which is where the
+dispatcher invariants are proved.
 
-Every theorem quantifies over all configurations (`workers`, `depth : Int`, `inCap`, and `handler`: a recovery handler
-is installed or not — `New` without the `RecoveryHandler` option and `RecoveryHandler(nil)` are `handler = false`), all
-task sets, all panic patterns and all interleavings: `Reachable c s` is "s is reachable from the initial state by any sequence of rules".
-Helper lemmas are in `Lemmas/TaskQueue.lean` and `Lemmas/TaskQueue2.lean`. -/
+Every theorem quantifies over all configurations (`workers`, `depth : Int`, `inCap`, `handler` installed or not), all task
+sets, all panic patterns and all interleavings (`TReachable v c s`).  `v : Variant` is the program: `code` is the code as
+it is; `Sound v` = the recover in `runTask` is in place and the dispatcher does not run tasks (tasks may call `Submit` on
+their own queue, `v.nest`); `InDomain v` = in addition tasks do not submit to their own queue — the domain of the liveness
+theorems.  The `contrast_*` theorems show, with concrete schedules, that outside these classes the clauses FAIL: they
+are what makes `running_le_workers`, `no_worker_dies` and the liveness theorems statements about the program and not
+about the shape of the model. -/
 namespace C15
-open TQ
+open TQ TQW
 
-/-- the executable model that the driver runs and the relation the theorems are about are the same: a step of
-    `Step` is exactly the firing of an enabled label of `next` -/
-theorem next_is_step (c : Cfg) (s s' : S) : Step c s s' ↔ ∃ l, l ∈ enabled c s ∧ next c s l = some s' :=
-  step_iff_next c s s'
+/-- the executable threaded model that the driver runs and the relation the theorems are about are the same -/
+theorem threaded_next_is_step (v : Variant) (c : Cfg) (s s' : TS) : TStep v c s s' ↔ ∃ l, tnext v c s l = some s' :=
+  tstep_iff_tnext v c s s'
 
-/-- every state the executable model reaches by running labels from the initial state is `Reachable`, so all the
-    theorems below apply to every state the driver visits -/
-theorem executable_states_reachable (c : Cfg) (ls : List Label) (s : S) (h : runLabels c {} ls = some s) :
-    Reachable c s :=
-  reachable_runLabels c ls {} s Reachable.init h
+/-- every state the executable model reaches by running labels from the initial state is `TReachable` -/
+theorem executable_states_reachable (v : Variant) (c : Cfg) (ls : List TLabel) (s : TS)
+    (h : trunLabels v c (init c) ls = some s) : TReachable v c s :=
+  treachable_trunLabels v c ls (init c) s TReachable.init h
+
+/-- **the threads refine the protocol**: the shared part of every reachable state is a reachable state of the dispatcher
+    protocol `TQ.Step`; the bookkeeping of that protocol is exactly the threads: `q.running` is (a permutation of) the
+    tasks inside `task()` on some worker thread, `q.reporting` counts the threads between the end of their task and
+    the completion of `ready <- true`; there are `workers` threads and the dispatcher thread executes nothing -/
+theorem refines_protocol (v : Variant) (c : Cfg) (hv : Sound v) (s : TS) (h : TReachable v c s) :
+    Reachable (noH c) s.q ∧ s.q.running.Perm (runningOf s.ws) ∧ s.q.reporting = cnt wmid s.ws ∧
+    s.ws.length = c.workers ∧ s.dexec = none := by
+  obtain ⟨hq, L⟩ := simulation v c hv.1 hv.2 s h
+  exact ⟨hq, L.perm, L.rep, L.len, L.nodexec⟩
 
 /-- **conservation** ("nor loses other tasks"): every accepted task (ids `0 … nextId−1`, in order of acceptance) is in
-    exactly one of: the `in` channel, the dispatcher's hand, the backlog, the `tasks` channel, running, finished —
-    and nothing else is anywhere -/
-theorem conservation (c : Cfg) (s : S) (h : Reachable c s) (id : Nat) :
-    (s.inq ++ held s.pc ++ liveBacklog s ++ s.tq ++ s.running ++ s.finished).count id = if id < s.nextId then 1 else 0 :=
-  TQ.conservation c s h id
+    exactly one of: the `in` channel, the dispatcher's hand, the backlog, the `tasks` channel, inside `task()` on a
+    worker thread, finished — and nothing else is anywhere -/
+theorem conservation (v : Variant) (c : Cfg) (hv : Sound v) (s : TS) (h : TReachable v c s) (id : Nat) :
+    (s.q.inq ++ held s.q.pc ++ liveBacklog s.q ++ s.q.tq ++ runningOf s.ws ++ s.q.finished).count id
+      = if id < s.q.nextId then 1 else 0 := by
+  obtain ⟨hq, L⟩ := simulation v c hv.1 hv.2 s h
+  have := TQ.conservation _ _ hq id
+  simp only [places, List.count_append] at this ⊢
+  rw [← L.perm.count_eq]; exact this
 
-/-- **executed exactly once (safety half)**: no task is ever started twice or finished twice; started = running or
-    finished; only accepted tasks are started -/
-theorem exactly_once (c : Cfg) (s : S) (h : Reachable c s) (id : Nat) :
-    s.started.count id ≤ 1 ∧ s.finished.count id ≤ 1 ∧
-    s.started.count id = s.running.count id + s.finished.count id ∧ (s.nextId ≤ id → s.started.count id = 0) := by
-  obtain ⟨h1, h2, h3⟩ := started_le_one c s h id
-  exact ⟨h1, h2, startedSplit c s h id, h3⟩
+/-- **executed exactly once (safety half)**: no task is ever started twice or finished twice; a started task is inside
+    `task()` on a worker thread or has finished; only accepted tasks are started -/
+theorem exactly_once (v : Variant) (c : Cfg) (hv : Sound v) (s : TS) (h : TReachable v c s) (id : Nat) :
+    s.q.started.count id ≤ 1 ∧ s.q.finished.count id ≤ 1 ∧
+    s.q.started.count id = (runningOf s.ws).count id + s.q.finished.count id ∧
+    (s.q.nextId ≤ id → s.q.started.count id = 0) := by
+  obtain ⟨hq, L⟩ := simulation v c hv.1 hv.2 s h
+  obtain ⟨h1, h2, h3⟩ := started_le_one _ _ hq id
+  refine ⟨h1, h2, ?_, h3⟩
+  rw [← L.perm.count_eq]; exact startedSplit _ _ hq id
 
-/-- **at no instant are more than Workers tasks running** (workers that are running a task or are about to send their
-    `ready` token never exceed the pool) -/
-theorem running_le_workers (c : Cfg) (s : S) (h : Reachable c s) : s.running.length + s.reporting ≤ c.workers :=
-  (bounds c s h).1
+/-- **at no instant are more than Workers tasks running** — derived, not guarded: a task is executed only by a worker
+    thread (the dispatcher thread executes nothing: `dexec = none`), a thread executes one task at a time (its state
+    holds one task), and there are exactly `workers` threads (`contrast_dispatcher_runs_exceeds_workers` shows the bound
+    fail for a dispatcher that lends a hand) -/
+theorem running_le_workers (v : Variant) (c : Cfg) (hv : Sound v) (s : TS) (h : TReachable v c s) :
+    (executing s).length ≤ c.workers ∧ s.dexec = none ∧ s.ws.length = c.workers :=
+  executing_le_workers v c hv s h
 
-/-- the `ready` and `tasks` channels never hold more than their capacity `workers` (so the model's sends respect the
-    channel bounds; a worker's `ready <- true` may block, which is why deadlock-freedom is proved separately) -/
-theorem ready_tokens_le_workers (c : Cfg) (s : S) (h : Reachable c s) : s.ready ≤ c.workers ∧ s.tq.length ≤ c.workers :=
-  (bounds c s h).2
+/-- the `ready` and `tasks` channels never hold more than their capacity `workers` (guard-enforced: a send on a full
+    channel is not enabled; that such a blocked send never deadlocks the system is `no_deadlock`) -/
+theorem ready_tokens_le_workers (v : Variant) (c : Cfg) (hv : Sound v) (s : TS) (h : TReachable v c s) :
+    s.q.ready ≤ c.workers ∧ s.q.tq.length ≤ c.workers :=
+  (bounds _ _ (simulation v c hv.1 hv.2 s h).1).2
 
 /-- **the dispatcher never evaluates `backlog[0]` on an empty backlog** (the `Depth(0)` crash of the old code), and it
     is at the direct send `tasks <- task` of the bounded branch only with an empty backlog -/
-theorem dispatcher_index_safe (c : Cfg) (s : S) (h : Reachable c s) :
-    (∀ t, s.pc = .sb t → s.backlog ≠ []) ∧ (s.pc = .sb2 → s.backlog ≠ []) ∧ (∀ t, s.pc = .sd t → s.backlog = []) :=
-  ⟨(indexSafe c s h).1, (indexSafe c s h).2, sdEmpty c s h⟩
+theorem dispatcher_index_safe (v : Variant) (c : Cfg) (hv : Sound v) (s : TS) (h : TReachable v c s) :
+    (∀ t, s.q.pc = .sb t → s.q.backlog ≠ []) ∧ (s.q.pc = .sb2 → s.q.backlog ≠ []) ∧ (∀ t, s.q.pc = .sd t → s.q.backlog = []) := by
+  have hq := (simulation v c hv.1 hv.2 s h).1
+  exact ⟨(indexSafe _ _ hq).1, (indexSafe _ _ hq).2, sdEmpty _ _ hq⟩
 
 /-- the counters of the dispatcher balance: `received − processed` is exactly what is in flight -/
-theorem counter_equation (c : Cfg) (s : S) (h : Reachable c s) :
-    s.received = s.processed + s.ready + s.reporting + s.running.length + s.tq.length
-                  + (liveBacklog s).length + (held s.pc).length :=
-  counter c s h
+theorem counter_equation (v : Variant) (c : Cfg) (hv : Sound v) (s : TS) (h : TReachable v c s) :
+    s.q.received = s.q.processed + s.q.ready + cnt wmid s.ws + (runningOf s.ws).length + s.q.tq.length
+                  + (liveBacklog s.q).length + (held s.q.pc).length := by
+  obtain ⟨hq, L⟩ := simulation v c hv.1 hv.2 s h
+  have := counter _ _ hq
+  unfold Counter at this
+  rw [← L.rep, ← L.perm.length_eq]; exact this
 
 /-- **FIFO, any number of workers**: the pipeline read from the workers back to the input channel is always
     `0, 1, …, nextId−1`: tasks are handed to workers in the order in which their `Submit` sends completed -/
-theorem fifo (c : Cfg) (s : S) (h : Reachable c s) :
-    s.started ++ (s.tq ++ (liveBacklog s ++ (held s.pc ++ s.inq))) = List.range s.nextId :=
-  TQ.fifo c s h
+theorem fifo (v : Variant) (c : Cfg) (hv : Sound v) (s : TS) (h : TReachable v c s) :
+    s.q.started ++ (s.q.tq ++ (liveBacklog s.q ++ (held s.q.pc ++ s.q.inq))) = List.range s.q.nextId :=
+  TQ.fifo _ _ (simulation v c hv.1 hv.2 s h).1
 
 /-- **one worker: one at a time, in submission order**: at most one task runs, the start order is an initial segment of
-    the acceptance order, and the tasks complete in that same order (start order = finish order + the running task).
-    Ids are given in the order in which the sends into `in` complete, so a task whose `Submit` returned before
-    another's began has the smaller id and, by this theorem, runs (and ends) first. -/
-theorem fifo_single_worker (c : Cfg) (hw : c.workers = 1) (s : S) (h : Reachable c s) :
-    s.running.length ≤ 1 ∧ s.started <+: List.range s.nextId ∧ s.started = s.finished.reverse ++ s.running := by
-  refine ⟨?_, started_prefix c s h, serial c hw s h⟩
-  have := (bounds c s h).1
+    the acceptance order, and the tasks complete in that same order.  Ids are given in the order in which the sends
+    into `in` complete, so a task whose `Submit` returned before another's began has the smaller id and runs first.
+    (The forced-schedule tie prints the start and finish ORDER for one-worker queues and compares it with this.) -/
+theorem fifo_single_worker (v : Variant) (c : Cfg) (hv : Sound v) (hw : c.workers = 1) (s : TS) (h : TReachable v c s) :
+    (executing s).length ≤ 1 ∧ s.q.started <+: List.range s.q.nextId ∧
+    s.q.started = s.q.finished.reverse ++ s.q.running := by
+  obtain ⟨hq, L⟩ := simulation v c hv.1 hv.2 s h
+  refine ⟨?_, started_prefix _ _ hq, serial (noH c) hw s.q hq⟩
+  have := (executing_le_workers v c hv s h).1
   omega
 
-/-- **a panicking task is reported to the recovery handler exactly once**: if a handler is installed it has been called
-    once for every panicking task that has finished, never for any other task, never twice; without a handler there
-    are no calls -/
-theorem panic_reported_once (c : Cfg) (s : S) (h : Reachable c s) (id : Nat) :
-    s.recovered.count id = (if c.handler = true ∧ id ∈ s.pan then s.finished.count id else 0) ∧
-    s.recovered.count id ≤ 1 := by
-  have h1 := recovered_inv c s h id
-  have h2 := (started_le_one c s h id).2.1
+/-- **a panicking task does not kill its worker**: no worker thread ever terminates — every panic is recovered before
+    it reaches the top of the goroutine (`contrast_no_recover_worker_dies`: without the recover in `runTask` it does) -/
+theorem no_worker_dies (v : Variant) (c : Cfg) (hv : Sound v) (s : TS) (h : TReachable v c s) : W.dead ∉ s.ws :=
+  TQW.no_worker_dies v c hv s h
+
+/-- … and the worker returns to its loop: a thread that is unwinding from a task's panic, calling the handler, or
+    unwinding from the handler's own panic is never blocked — its next step is enabled whatever the other threads do and
+    leads to `reporting` in at most three steps (unwinding → handling → reporting, unwinding → reporting without a
+    handler, handling → unwindingH → reporting for a handler that panics) -/
+theorem panic_always_recovered (v : Variant) (c : Cfg) (hv : v.recovers = true) (s : TS) (i t : Nat) :
+    (s.ws[i]? = some (.unwinding t) → ∃ s', TStep v c s s' ∧ (s'.ws = s.ws.set i (.handling t) ∨ s'.ws = s.ws.set i .reporting)) ∧
+    (s.ws[i]? = some (.handling t) → ∃ s', TStep v c s s' ∧ s'.ws = s.ws.set i .reporting ∧ s'.hcalls = t :: s.hcalls) ∧
+    (s.ws[i]? = some (.unwindingH t) → ∃ s', TStep v c s s' ∧ s'.ws = s.ws.set i .reporting) :=
+  recovery_never_blocks v c hv s i t
+
+/-- **a panicking task is reported to the recovery handler exactly once** (handler installed): for every task, the
+    calls made plus the calls still to come (threads unwinding from, or about to handle, that task's panic) equal 1 if
+    the task panics and has ended, 0 otherwise; in particular never twice, never for a task that did not panic.
+    The call is a step of its own (`handlerRet` / `handlerPanic`), separate from the end of the task. -/
+theorem panic_reported_once (v : Variant) (c : Cfg) (hv : Sound v) (hh : c.handler = true) (s : TS) (h : TReachable v c s)
+    (id : Nat) :
+    s.hcalls.count id + cnt (wpend id) s.ws = (if id ∈ s.q.pan then s.q.finished.count id else 0) ∧
+    s.hcalls.count id ≤ 1 := by
+  have h1 := hcalls_inv v c hv hh s h id
+  have h2 := (started_le_one _ _ (simulation v c hv.1 hv.2 s h).1 id).2.1
   refine ⟨h1, ?_⟩
-  rw [h1]; split
-  · exact h2
-  · omega
+  split at h1 <;> omega
 
-/-- **a panicking task does not kill its worker — with or without a recovery handler**: when a task ends, by returning
-    or by panicking, its worker is still there (it moves from `running` to `reporting`, the number of idle workers
-    `workers − running − reporting` is unchanged) and nothing else changes, whatever `c.handler` is; the only effect of
-    the handler is the record of its call -/
-theorem panic_worker_survives (c : Cfg) (s : S) (t : Nat) (ht : t ∈ s.running) :
-    Step c s (doFinish c.handler s t) ∧
-    (doFinish c.handler s t).running.length + (doFinish c.handler s t).reporting = s.running.length + s.reporting ∧
-    (doFinish c.handler s t).recovered = (if c.handler = true ∧ t ∈ s.pan then t :: s.recovered else s.recovered) ∧
-    (doFinish c.handler s t).tq = s.tq ∧ (doFinish c.handler s t).backlog = s.backlog ∧
-    (doFinish c.handler s t).inq = s.inq ∧ (doFinish c.handler s t).pc = s.pc ∧
-    eraseRecovered (doFinish c.handler s t) = eraseRecovered (doFinish (!c.handler) s t) := by
-  refine ⟨Step.finish s t ht, ?_, rfl, rfl, rfl, rfl, rfl, rfl⟩
-  have := List.length_erase_of_mem ht
-  have hpos : 0 < s.running.length := List.length_pos_of_mem ht
-  simp only [this]; omega
+/-- without a handler (`New` without the option, `RecoveryHandler(nil)`) there are no handler calls at all, and no
+    thread is ever inside a handler -/
+theorem no_handler_no_calls (v : Variant) (c : Cfg) (hh : c.handler = false) (s : TS) (h : TReachable v c s) :
+    s.hcalls = [] ∧ cnt whandling s.ws = 0 :=
+  nohandler_inv v c hh s h
 
-/-- **the handler configuration is irrelevant to everything but the handler calls**: the executable model with a handler
-    and without one takes the same steps to the same states up to the field `recovered`.  (All the other theorems of
-    this file — in particular `conservation`, `exactly_once`, `no_deadlock`, `shutdown_after_all_done`,
-    `shutdown_returns` — are stated for every `c`, hence for both values of `c.handler`.) -/
-theorem handler_irrelevant (c : Cfg) (b : Bool) (s : S) (l : Label) :
-    (next { c with handler := b } s l).map eraseRecovered = (next c s l).map eraseRecovered :=
-  handler_only_affects_recovered c b s l
-
-/-- without a handler (`New` without the option, `RecoveryHandler(nil)`) there are no handler calls at all -/
-theorem no_handler_no_calls (c : Cfg) (hh : c.handler = false) (s : S) (h : Reachable c s) : s.recovered = [] :=
-  recovered_nil_of_no_handler c hh s h
-
-/-- **no deadlock after Shutdown** (whatever panics, whatever the depth; `workers ≥ 1`): until the dispatcher has
-    signalled completion to `Shutdown`, some rule is enabled — a dispatcher or worker step, or the end of a running task
-    (tasks are assumed to end) -/
-theorem no_deadlock (c : Cfg) (hw : 1 ≤ c.workers) (s : S) (h : Reachable c s) (hs : 1 ≤ s.shut) (hp : s.pc ≠ .fin) :
-    ∃ l, l ∈ enabled c s ∧ (next c s l).isSome = true := by
-  obtain ⟨s', hs'⟩ := progress c hw s h hs hp
-  obtain ⟨l, hl, hn⟩ := (step_iff_next c s s').mp hs'
-  exact ⟨l, hl, by simp [hn]⟩
+/-- **no deadlock after Shutdown** (any panic pattern, handler or not, any depth; `workers ≥ 1`; tasks in the domain):
+    until the dispatcher has signalled completion to `Shutdown`, some rule is enabled — a dispatcher or worker step, or
+    the end of a running task (tasks are assumed to end) -/
+theorem no_deadlock (v : Variant) (c : Cfg) (hv : InDomain v) (hw : 1 ≤ c.workers) (s : TS) (h : TReachable v c s)
+    (hs : 1 ≤ s.q.shut) (hp : s.q.pc ≠ .fin) : ∃ l s', tnext v c s l = some s' := by
+  obtain ⟨s', st⟩ := tprogress v c hv hw s h hs hp
+  obtain ⟨l, hl⟩ := (tstep_iff_tnext v c s s').mp st
+  exact ⟨l, s', hl⟩
 
 /-- **Shutdown returns only after all accepted tasks have finished**: when `Shutdown` has returned (`shut = 2`) — indeed
-    as soon as the dispatcher has closed `tasks` — every accepted task has finished exactly once, nothing is queued,
-    running or unreported, and `in` is empty -/
-theorem shutdown_after_all_done (c : Cfg) (s : S) (h : Reachable c s) (hp : s.shut = 2 ∨ s.pc = .ds ∨ s.pc = .fin) :
-    (∀ id, s.finished.count id = if id < s.nextId then 1 else 0) ∧
-    s.running = [] ∧ s.tq = [] ∧ s.reporting = 0 ∧ s.ready = 0 ∧ s.inq = [] := by
-  have hp' : s.pc = .ds ∨ s.pc = .fin := by
+    as soon as the dispatcher has closed `tasks` — every accepted task has finished exactly once, no thread is inside a
+    task or between a task and its `ready` token, nothing is queued, and `in` is empty -/
+theorem shutdown_after_all_done (v : Variant) (c : Cfg) (hv : Sound v) (s : TS) (h : TReachable v c s)
+    (hp : s.q.shut = 2 ∨ s.q.pc = .ds ∨ s.q.pc = .fin) :
+    (∀ id, s.q.finished.count id = if id < s.q.nextId then 1 else 0) ∧
+    runningOf s.ws = [] ∧ cnt wmid s.ws = 0 ∧ s.q.tq = [] ∧ s.q.ready = 0 ∧ s.q.inq = [] := by
+  obtain ⟨hq, L⟩ := simulation v c hv.1 hv.2 s h
+  have hp' : s.q.pc = .ds ∨ s.q.pc = .fin := by
     rcases hp with hp | hp | hp
-    · exact Or.inr ((shutInv c s h).2 hp)
+    · exact Or.inr ((shutInv _ _ hq).2 hp)
     · exact Or.inl hp
     · exact Or.inr hp
-  obtain ⟨h1, h2, h3, h4⟩ := shutdown_complete c s h hp'
-  have hd := (drained c s h (by rcases hp' with hp | hp <;> simp [hp])).1
-  exact ⟨all_finished c s h hp', h1, h2, h3, h4, hd⟩
+  obtain ⟨h1, h2, h3, h4⟩ := shutdown_complete _ _ hq hp'
+  have hd := (drained _ _ hq (by rcases hp' with hp | hp <;> simp [hp])).1
+  refine ⟨all_finished _ _ hq hp', ?_, ?_, h2, h4, hd⟩
+  · have := L.perm; rw [h1] at this; exact List.Perm.nil_eq this |>.symm
+  · rw [← L.rep]; exact h3
 
-/-- … and every panic among them has been reported exactly once by then -/
-theorem shutdown_after_all_reported (c : Cfg) (s : S) (h : Reachable c s) (hp : s.shut = 2) (id : Nat)
-    (hid : id < s.nextId) : s.recovered.count id = if c.handler = true ∧ id ∈ s.pan then 1 else 0 := by
-  have h1 := (shutdown_after_all_done c s h (Or.inl hp)).1 id
-  have h2 := recovered_inv c s h id
-  simp only [hid, if_true] at h1
-  rw [h2, h1]
+/-- … and every panic among them has been reported exactly once by then (handler installed) -/
+theorem shutdown_after_all_reported (v : Variant) (c : Cfg) (hv : Sound v) (hh : c.handler = true) (s : TS)
+    (h : TReachable v c s) (hp : s.q.shut = 2) (id : Nat) (hid : id < s.q.nextId) :
+    s.hcalls.count id = if id ∈ s.q.pan then 1 else 0 := by
+  obtain ⟨h1, _, h3, _⟩ := shutdown_after_all_done v c hv s h (Or.inl hp)
+  have h2 := (panic_reported_once v c hv hh s h id).1
+  have h4 := wpend_le_wmid id s.ws
+  have h5 := h1 id
+  simp only [hid, if_true] at h5
+  rw [h5] at h2
+  omega
 
-/-- **nothing prevents Shutdown from returning** (liveness, no fairness assumption; any panic pattern, handler installed
-    or not — `c` is arbitrary): take any reachable state in which
-    `Shutdown` has been called and any run from it — an infinite sequence of states in which at every index some rule
-    fires (a dispatcher, worker or end-of-task step, chosen by an arbitrary scheduler) or nothing is enabled and the
-    state repeats.  Then `Shutdown` has returned after at most `mu s + 1` steps, where the variant `mu` weighs every
-    task and token by its distance from the end of the pipeline.  ("Tasks are assumed to end" is the only assumption:
-    the end of a running task is one of the rules, and a run may not stop while a rule is enabled.) -/
-theorem shutdown_returns (c : Cfg) (hw : 1 ≤ c.workers) (s : S) (h : Reachable c s) (hs : 1 ≤ s.shut)
-    (run : Nat → S) (h0 : run 0 = s)
-    (hrun : ∀ i, Step c (run i) (run (i + 1)) ∨ (run (i + 1) = run i ∧ ¬ ∃ s', Step c (run i) s')) :
-    (run (mu s + 1)).shut = 2 :=
-  TQ.shutdown_returns c hw s h hs run h0 hrun
+/-- **nothing prevents Shutdown from returning** (liveness, no fairness assumption; any panic pattern, handler or not):
+    take any reachable state in which `Shutdown` has been called and any run from it — an infinite sequence of states in
+    which at every index some rule fires (chosen by an arbitrary scheduler) or nothing is enabled and the state repeats.
+    Then `Shutdown` has returned after at most `mu2 s + 1` steps.  Assumptions: tasks end (the end of a running task is
+    one of the rules, and a run may not stop while a rule is enabled) and do not call `Submit` on their own queue
+    (`InDomain`; see `contrast_reentrant_*`). -/
+theorem shutdown_returns (v : Variant) (c : Cfg) (hv : InDomain v) (hw : 1 ≤ c.workers) (s : TS) (h : TReachable v c s)
+    (hs : 1 ≤ s.q.shut) (run : Nat → TS) (h0 : run 0 = s)
+    (hrun : ∀ i, TStep v c (run i) (run (i + 1)) ∨ (run (i + 1) = run i ∧ ¬ ∃ s', TStep v c (run i) s')) :
+    (run (mu2 s + 1)).q.shut = 2 :=
+  tshutdown_returns v c hv hw s h hs run h0 hrun
 
-/-- the variant behind `shutdown_returns`: once `Shutdown` has been called every rule strictly decreases `mu` -/
-theorem variant_decreases (c : Cfg) (s s' : S) (hs : 1 ≤ s.shut) (st : Step c s s') : mu s' < mu s :=
-  (mu_step c s s' hs st).1
+/-- the variant behind `shutdown_returns`: once `Shutdown` has been called every rule strictly decreases `mu2` -/
+theorem variant_decreases (v : Variant) (c : Cfg) (hv : Sound v) (s s' : TS) (h : TReachable v c s) (hs : 1 ≤ s.q.shut)
+    (st : TStep v c s s') : mu2 s' < mu2 s :=
+  (mu2_step v c hv s s' (simulation v c hv.1 hv.2 s h).2 hs st).1
 
-/-! ### non-vacuity: concrete runs of the executable model -/
+/-- the code as it is lies in both classes -/
+theorem code_is_in_domain : InDomain code ∧ Sound code := ⟨code_inDomain, code_inDomain.1⟩
 
-/-- one worker, `Depth(0)`, three tasks (the second panics), the schedule that crashed the old dispatcher:
-    the third task is received while the worker is busy and `tasks` is full, so the dispatcher waits in the bounded
-    branch with an empty backlog, and the first task then finishes.  The run ends with Shutdown returned, all three
-    tasks finished in order and the panic reported. -/
-example :
-    (runLabels { workers := 1, depth := 0, inCap := 2 } {}
-      [.submit false, .recv, .handoff, .take, .submit true, .recv, .handoff, .submit false, .recv, .toWait,
-       .finish 0, .report, .waitReady, .take, .sendDirect, .shutdown, .closed, .drainDone, .finish 1, .report, .take,
-       .finalReady, .finish 2, .report, .finalReady, .finalClose, .signalDone]).map
-      (fun s => (s.shut, s.finished, s.recovered, s.started)) = some (2, [2, 1, 0], [1], [0, 1, 2]) := by
+/-! ### contrast: programs outside the classes, with concrete schedules -/
+
+/-- WITHOUT the recover in `runTask` (seeded own-c15-3, ind2-c15-a) a panicking task kills its worker: the thread is
+    `dead`; after `Shutdown` nothing is enabled any more, an accepted task is still queued and `Shutdown` never returns -/
+theorem contrast_no_recover_worker_dies :
+    let c : Cfg := { workers := 1, depth := -1, inCap := 2 }
+    let v : Variant := { recovers := false }
+    (trunLabels v c (init c)
+      [.q (.submit true), .q .recv, .q .handoff, .take 0, .panic 0, .die 0, .q (.submit false), .q .shutdown, .q .recv,
+       .q .handoff, .q .closed, .q .drainDone]).map (fun s => (s.ws, tenabled v c s, s.q.shut, s.q.tq))
+      = some ([W.dead], [], 1, [1]) := by
   decide
 
-/-- the same run on a queue without recovery handler: identical, except that no handler call is recorded -/
+/-- WITH a dispatcher that runs a backlog task itself while draining when `tasks` is full (seeded ind4-c15-a) the bound
+    fails: two workers, three tasks executing at the same instant -/
+theorem contrast_dispatcher_runs_exceeds_workers :
+    let c : Cfg := { workers := 2, depth := -1, inCap := 5 }
+    let v : Variant := { dispatcherRuns := true }
+    (trunLabels v c (init c)
+      [.q (.submit false), .q (.submit false), .q (.submit false), .q (.submit false), .q (.submit false),
+       .q .recv, .q .handoff, .take 0, .q .recv, .q .handoff, .take 1, .q .recv, .q .handoff, .q .recv, .q .handoff,
+       .q .recv, .q .toBacklog, .q .shutdown, .q .closed, .dispStart]).map (fun s => (executing s, c.workers))
+      = some ([0, 1, 4], 2) := by
+  decide
+
+/-- a task that calls `Submit` on its own BOUNDED queue can deadlock it (one worker, `Depth(0)`, `in` capacity 1, task 0
+    makes 4 submissions): after three of them `tasks`, the dispatcher's hand and `in` are full, the dispatcher waits for a
+    completion, the only worker is inside the task that waits for room: nothing but `Shutdown` is enabled, and after
+    `Shutdown` nothing at all — it never returns and tasks 1–3 are never run.  (Real code: Workers(1), Depth(d ≥ 0), one
+    task submitting 2·NumCPU + 3 + d tasks blocks for ever in the last Submit.) -/
+theorem contrast_reentrant_bounded_deadlock :
+    let c : Cfg := { workers := 1, depth := 0, inCap := 1 }
+    let v : Variant := { nest := fun t => if t = 0 then 4 else 0 }
+    let sched : List TLabel := [.q (.submit false), .q .recv, .q .handoff, .take 0, .nestedSubmit 0, .q .recv, .q .handoff,
+       .nestedSubmit 0, .q .recv, .q .toWait, .nestedSubmit 0]
+    (trunLabels v c (init c) sched).map (fun s => (tenabled v c s, s.q.nextId, s.q.started)) = some ([.q .shutdown], 4, [0]) ∧
+    (trunLabels v c (init c) (sched ++ [.q .shutdown])).map (fun s => (tenabled v c s, s.q.shut)) = some ([], 1) := by
+  decide
+
+/-- … and, with a second submitter, even an UNBOUNDED queue (one worker, `in` capacity 1): the dispatcher has taken a
+    completion and is blocked on the full `tasks` channel, the worker is inside task 1, which is blocked in `Submit` on
+    the full `in` channel -/
+theorem contrast_reentrant_unbounded_deadlock :
+    let c : Cfg := { workers := 1, depth := -1, inCap := 1 }
+    let v : Variant := { nest := fun t => if t = 1 then 1 else 0 }
+    (trunLabels v c (init c)
+      [.q (.submit false), .q .recv, .q .handoff, .take 0, .q (.submit false), .q .recv, .q .handoff, .ret 0, .report 0,
+       .take 0, .q (.submit false), .q .recv, .q .handoff, .q (.submit false), .q .recv, .q .toBacklog,
+       .q .selReadyBacklog, .q (.submit false)]).map (fun s => (s.ws, tenabled v c s, s.q.pc, s.q.tq, s.q.inq))
+      = some ([W.running 1 1], [.q .shutdown], .sb2, [2], [4]) := by
+  decide
+
+/-! ### non-vacuity: concrete runs of the code -/
+
+/-- one worker, `Depth(0)`, three tasks (the second panics, handler installed), the schedule that crashed the old
+    dispatcher; the run ends with Shutdown returned, all three tasks finished in order, the panic reported once and the
+    worker idle -/
 example :
-    (runLabels { workers := 1, depth := 0, inCap := 2, handler := false } {}
-      [.submit false, .recv, .handoff, .take, .submit true, .recv, .handoff, .submit false, .recv, .toWait,
-       .finish 0, .report, .waitReady, .take, .sendDirect, .shutdown, .closed, .drainDone, .finish 1, .report, .take,
-       .finalReady, .finish 2, .report, .finalReady, .finalClose, .signalDone]).map
-      (fun s => (s.shut, s.finished, s.recovered, s.started)) = some (2, [2, 1, 0], [], [0, 1, 2]) := by
+    let c : Cfg := { workers := 1, depth := 0, inCap := 2 }
+    (trunLabels code c (init c)
+      [.q (.submit false), .q .recv, .q .handoff, .take 0, .q (.submit true), .q .recv, .q .handoff, .q (.submit false),
+       .q .recv, .q .toWait, .ret 0, .report 0, .q .waitReady, .take 0, .q .sendDirect, .q .shutdown, .q .closed,
+       .q .drainDone, .panic 0, .recoverH 0, .handlerRet 0, .report 0, .take 0, .q .finalReady, .ret 0, .report 0,
+       .q .finalReady, .q .finalClose, .q .signalDone]).map
+      (fun s => (s.q.shut, s.q.finished, s.hcalls, s.q.started, s.ws)) = some (2, [2, 1, 0], [1], [0, 1, 2], [W.idle]) := by
   decide
 
 /-- the hypotheses of `no_deadlock` are satisfiable: after `Shutdown` with a task still queued -/
-example : ∃ s, Reachable { workers := 1, depth := 1, inCap := 1 } s ∧ 1 ≤ s.shut ∧ s.pc ≠ .fin :=
-  ⟨_, executable_states_reachable { workers := 1, depth := 1, inCap := 1 } [.submit false, .shutdown] _ rfl,
+example : ∃ s, TReachable code { workers := 1, depth := 1, inCap := 1 } s ∧ 1 ≤ s.q.shut ∧ s.q.pc ≠ .fin :=
+  ⟨_, executable_states_reachable code { workers := 1, depth := 1, inCap := 1 } [.q (.submit false), .q .shutdown] _ rfl,
    by decide, by decide⟩
 
 end C15
